@@ -388,11 +388,25 @@ Definition comps_equiv (cs cs' : list comp) : Prop :=
 Lemma keyed_nil : keyed [].
 Proof. split; [constructor|intros a b []]. Qed.
 
-Lemma run_comp_perm n p1 p2 c1 :
-  Permutation p1 p2 -> run_comp (empty_comp n) p1 = Ok c1 ->
+Definition same_set {A} (l l' : list A) : Prop := forall x, In x l <-> In x l'.
+
+Lemma flat_map_In_set {A B} (f : A -> list B) l l' x :
+  same_set l l' -> In x (flat_map f l) -> In x (flat_map f l').
+Proof.
+  intros HP H. apply in_flat_map in H. destruct H as [y [Hy Hx]]. apply in_flat_map.
+  exists y. split; [apply HP; exact Hy|exact Hx].
+Qed.
+
+Lemma same_set_sym {A} (l l' : list A) : same_set l l' -> same_set l' l.
+Proof. intros H x. symmetry. apply H. Qed.
+
+(* the result of a component depends only on the set of insertions *)
+Lemma run_comp_set n p1 p2 c1 :
+  same_set p1 p2 -> run_comp (empty_comp n) p1 = Ok c1 ->
   exists c2, run_comp (empty_comp n) p2 = Ok c2 /\ comp_perm c1 c2.
 Proof.
-  intros HP H. rewrite run_comp_spec in H. rewrite run_comp_spec. simpl in *.
+  intros HP H. pose proof (same_set_sym _ _ HP) as HP'.
+  rewrite run_comp_spec in H. rewrite run_comp_spec. simpl in *.
   destruct (fold_assign [] (asg p1)) as [la1|] eqn:E1; [|discriminate]. injection H as <-.
   destruct (fold_assign_spec (asg p1) [] keyed_nil) as [A1 A2].
   pose proof (A2 la1 E1) as Hcf1. rewrite app_nil_r in Hcf1.
@@ -400,38 +414,53 @@ Proof.
   rewrite E1 in E1'. injection E1' as <-.
   destruct (fold_assign_spec (asg p2) [] keyed_nil) as [B1 _].
   assert (Hcf2 : conflict_free (asg p2 ++ [])).
-  { rewrite app_nil_r. intros a b Ha Hb. apply Hcf1; eapply flat_map_In_perm; try eassumption; apply Permutation_sym, HP. }
+  { rewrite app_nil_r. intros a b Ha Hb. apply Hcf1; eapply flat_map_In_set; try eassumption. }
   destruct (B1 Hcf2) as (la2 & E2 & K2 & M2). rewrite E2.
   eexists. split; [reflexivity|]. split; [reflexivity|]. simpl. split; [|split].
   - apply NoDup_Permutation; try (apply fold_add_decl_NoDup; constructor).
-    intros x. rewrite !fold_add_decl_In. split; intros [[]|H]; right; eapply flat_map_In_perm; try eassumption.
-    apply Permutation_sym, HP.
+    intros x. rewrite !fold_add_decl_In. split; intros [[]|H]; right; eapply flat_map_In_set; try eassumption.
   - apply NoDup_Permutation; try (apply fold_add_decl_NoDup; constructor).
-    intros x. rewrite !fold_add_decl_In. split; intros [[]|H]; right; eapply flat_map_In_perm; try eassumption.
-    apply Permutation_sym, HP.
+    intros x. rewrite !fold_add_decl_In. split; intros [[]|H]; right; eapply flat_map_In_set; try eassumption.
   - apply NoDup_Permutation; [exact (proj1 K1)|exact (proj1 K2)|].
-    intros x. rewrite M1, M2. split; intros [[]|H]; right; eapply flat_map_In_perm; try eassumption.
-    apply Permutation_sym, HP.
+    intros x. rewrite M1, M2. split; intros [[]|H]; right; eapply flat_map_In_set; try eassumption.
 Qed.
 
-Theorem run_ops_perm l1 l2 cs1 :
-  Permutation l1 l2 -> run_ops [] l1 = Ok cs1 ->
+Lemma proj_In n l o : In o (proj n l) <-> In (n, o) l.
+Proof.
+  unfold proj. rewrite in_map_iff. split.
+  - intros [[m o'] [E H]]. simpl in E. subst o'. apply filter_In in H. destruct H as [H Hm]. simpl in Hm.
+    apply String.eqb_eq in Hm. subst m. exact H.
+  - intros H. exists (n, o). split; [reflexivity|]. apply filter_In. split; [exact H|]. simpl. apply String.eqb_refl.
+Qed.
+
+Lemma proj_set n l l' : same_set l l' -> same_set (proj n l) (proj n l').
+Proof. intros H o. rewrite !proj_In. apply H. Qed.
+
+Theorem run_ops_set l1 l2 cs1 :
+  same_set l1 l2 -> run_ops [] l1 = Ok cs1 ->
   exists cs2, run_ops [] l2 = Ok cs2 /\ comps_equiv cs1 cs2.
 Proof.
   intros HP H1. pose proof (run_ops_proj l1 []) as R1. rewrite H1 in R1. destruct R1 as (P1 & N1 & D1).
   pose proof (run_ops_proj l2 []) as R2. destruct (run_ops [] l2) as [cs2|e].
   - destruct R2 as (P2 & N2 & D2). exists cs2. split; [reflexivity|].
     split; [apply D1; constructor|]. split; [apply D2; constructor|]. split.
-    + intros n. rewrite N1, N2. simpl. split; intros [[]|H]; right.
-      * eapply Permutation_in; [apply Permutation_map, HP|exact H].
-      * eapply Permutation_in; [apply Permutation_map, Permutation_sym, HP|exact H].
+    + intros n. rewrite N1, N2. simpl. rewrite !in_map_iff.
+      split; intros [[]|[x [E Hx]]]; right; exists x; (split; [exact E|]); apply HP; exact Hx.
     + intros n. specialize (P1 n). specialize (P2 n).
-      destruct (run_comp_perm n _ _ _ (proj_perm n _ _ HP) P1) as (c2 & E2 & Hc).
+      destruct (run_comp_set n _ _ _ (proj_set n _ _ HP) P1) as (c2 & E2 & Hc).
       assert (G : getc [] n = empty_comp n) by reflexivity. rewrite G in P2. rewrite E2 in P2. injection P2 as <-. exact Hc.
   - exfalso. destruct R2 as (n & e' & He). specialize (P1 n).
-    destruct (run_comp_perm n _ _ _ (proj_perm n _ _ HP) P1) as (c2 & E2 & _).
+    destruct (run_comp_set n _ _ _ (proj_set n _ _ HP) P1) as (c2 & E2 & _).
     assert (G : getc [] n = empty_comp n) by reflexivity. rewrite G in He. congruence.
 Qed.
+
+Lemma perm_same_set {A} (l l' : list A) : Permutation l l' -> same_set l l'.
+Proof. intros H x. split; apply Permutation_in; [exact H|apply Permutation_sym, H]. Qed.
+
+Theorem run_ops_perm l1 l2 cs1 :
+  Permutation l1 l2 -> run_ops [] l1 = Ok cs1 ->
+  exists cs2, run_ops [] l2 = Ok cs2 /\ comps_equiv cs1 cs2.
+Proof. intros HP. apply run_ops_set, perm_same_set, HP. Qed.
 
 (* ---------- components of an equivalent list ---------- *)
 Lemma getc_In cs c : NoDup (names cs) -> In c cs -> getc cs (c_name c) = c.
@@ -605,8 +634,8 @@ Proof.
   intros (A & B & C & D). split; [symmetry; exact A|]. split; [|split]; apply Permutation_sym; assumption.
 Qed.
 
-Theorem load_comps_perm items1 items2 cs1 :
-  Permutation (ops items1) (ops items2) ->
+Theorem load_comps_set items1 items2 cs1 :
+  same_set (ops items1) (ops items2) ->
   load_comps items1 = Ok cs1 ->
   exists cs2, load_comps items2 = Ok cs2 /\ comps_equiv cs1 cs2.
 Proof.
@@ -616,7 +645,7 @@ Proof.
   destruct (check_components cs) as [[]|] eqn:Ec; [|discriminate]. simpl in H.
   destruct (first_dup (all_atoms cs)) eqn:Ed; [discriminate|].
   destruct (resolve cs) as [[]|] eqn:Er; [|discriminate]. simpl in H. injection H as <-.
-  destruct (run_ops_perm _ _ cs HP E1) as (cs2 & E2 & HE). rewrite E2. simpl.
+  destruct (run_ops_set _ _ cs HP E1) as (cs2 & E2 & HE). rewrite E2. simpl.
   pose proof (comps_equiv_sym _ _ HE) as HE'.
   pose proof (proj1 (first_dup_iff _) Ed) as NF.
   exists cs2. split; [|exact HE].
@@ -657,6 +686,12 @@ Proof.
     apply (all_atoms_equiv cs2 cs); assumption. }
   rewrite Hr. reflexivity.
 Qed.
+
+Theorem load_comps_perm items1 items2 cs1 :
+  Permutation (ops items1) (ops items2) ->
+  load_comps items1 = Ok cs1 ->
+  exists cs2, load_comps items2 = Ok cs2 /\ comps_equiv cs1 cs2.
+Proof. intros HP. apply load_comps_set, perm_same_set, HP. Qed.
 
 Lemma dedup_decl_In l x : In x (dedup_decl l) <-> In x l.
 Proof.
@@ -730,6 +765,17 @@ Proof.
   intros HP H. unfold load in *.
   destruct (load_comps items1) as [cs1|] eqn:E1; [|discriminate]. simpl in H. injection H as <-.
   destruct (load_comps_perm items1 items2 cs1 HP E1) as (cs2 & E2 & HE). rewrite E2. simpl.
+  eexists. split; [reflexivity|]. apply ode_of_equiv. exact HE.
+Qed.
+
+Theorem load_set items1 items2 o1 :
+  same_set (ops items1) (ops items2) ->
+  load items1 = Ok o1 ->
+  exists o2, load items2 = Ok o2 /\ ode_equiv o1 o2.
+Proof.
+  intros HP H. unfold load in *.
+  destruct (load_comps items1) as [cs1|] eqn:E1; [|discriminate]. simpl in H. injection H as <-.
+  destruct (load_comps_set items1 items2 cs1 HP E1) as (cs2 & E2 & HE). rewrite E2. simpl.
   eexists. split; [reflexivity|]. apply ode_of_equiv. exact HE.
 Qed.
 
